@@ -1,5 +1,5 @@
 (** C05 (iv): after midpoint rooting the root lies halfway along a longest tip-to-tip path. *)
-From Coq Require Import String ZArith QArith Bool Arith Lia List Permutation Setoid Morphisms.
+From Coq Require Import String ZArith QArith Bool Arith Lia Lqa List Permutation Setoid Morphisms.
 From GT Require Import Base.UTree Spec.Obs Model.Reroot Model.Outgroup Spec.Unrooted
      Proofs.RerootBase Proofs.Reroot Proofs.Reorder Proofs.Unroot Proofs.Splits Proofs.C05Main
      Proofs.OutgroupBase Proofs.OutgroupCut Proofs.OutgroupKeep Proofs.OutgroupLCA Proofs.OutgroupClade
@@ -39,6 +39,13 @@ Proof.
                   (cross (shift (w e2) (depths w c2)) (shift (w e1) (depths w c1)))).
   { apply cross_In. exists (y, (w e2 + dy)%Q), (x, (w e1 + dx)%Q). auto. }
   split; rewrite !in_app_iff; tauto.
+Qed.
+
+Lemma skipn_map_cons {A B} (f : A -> B) (l : list A) k d0 :
+  k < length l -> skipn k (map f l) = f (nth k l d0) :: map f (skipn (S k) l).
+Proof.
+  revert k; induction l as [|x l IH]; intros k Hk; simpl in Hk; [lia|].
+  destruct k; simpl; [reflexivity|]. apply IH. lia.
 Qed.
 
 Theorem reroot_midpoint_halfway t t' :
@@ -160,11 +167,11 @@ Proof.
                 (mkE cut (esup ce) nilv []) (mkE (elen ce - cut) (esup ce) nilv [])
                 P ce ch W2 D2 HP HK) as [t4 [R [E4 [S4 [_ [L4 P4]]]]]].
     { simpl. ring. }
-    assert (t4 = t') by congruence. subst t4.
+    assert (Et : t4 = t') by congruence. rewrite Et in *. clear Et E4.
     (* the far end below the cut *)
-    assert (Hd : S (d - 1) = d) by (unfold d; lia).
+    assert (HSd : S (d - 1) = d) by (unfold d; lia).
     assert (Hch : node_at t2 (firstn d pA) = Some ch).
-    { rewrite <- Hd, (firstn_S_nth pA 0 (d - 1) Hd1), node_at_app, HP. simpl. now rewrite HK. }
+    { rewrite <- HSd, (firstn_S_nth pA 0 (d - 1) Hd1), node_at_app, HP. simpl. now rewrite HK. }
     assert (Hbch : node_at ch (skipn d pA) = Some b).
     { rewrite <- (firstn_skipn d pA), node_at_app, Hch in Hb. exact Hb. }
     destruct (depth_of_path elen (skipn d pA) ch b Hbch Kb) as [dbc [Hdbc Edbc]].
@@ -173,7 +180,8 @@ Proof.
       rewrite skipn_app.
       assert (Lf : length (path_edges t2 (firstn d pA)) = d).
       { rewrite (path_edges_length _ _ _ Hch), firstn_length. fold m. unfold d. lia. }
-      rewrite Lf, Nat.sub_diag. simpl. rewrite skipn_all2 by lia. reflexivity. }
+      rewrite (skipn_all2 (path_edges t2 (firstn d pA))) by (rewrite Lf; lia).
+      rewrite Lf, Nat.sub_diag. reflexivity. }
     rewrite Esk in Edbc.
     (* the length walked *)
     assert (Hlen' : (len == elen ce + qsum (map elen (skipn d PE)))%Q).
@@ -182,13 +190,9 @@ Proof.
       rewrite firstn_rev, LPEl, qsum_rev.
       replace (m - i) with (d - 1) by (unfold d; lia).
       assert (Esp : skipn (d - 1) PEl = elen ce :: map elen (skipn d PE)).
-      { unfold PEl. rewrite <- skipn_map.
-        assert (Hlt : d - 1 < length (map elen PE)) by (rewrite map_length, LPE'; fold m in Hd1; exact Hd1).
-        rewrite <- Hd at 2.
-        clear -Hlt. revert Hlt. generalize (d - 1). intros k.
-        unfold ce. generalize PE. intros l. revert k.
-        induction l as [|x l IH]; intros k Hk; simpl in Hk; [lia|].
-        destruct k; simpl; [reflexivity|]. apply IH. lia. }
+      { unfold PEl, ce.
+        rewrite (skipn_map_cons elen PE (d - 1) e0) by (rewrite LPE'; fold m in Hd1; exact Hd1).
+        now rewrite HSd. }
       rewrite Esp. simpl. ring. }
     rewrite S4.
     set (eC := mkE (elen ce - cut) (esup ce) nilv []) in *.
@@ -204,9 +208,9 @@ Proof.
       rewrite leaves_node in Hin' by (simpl; discriminate). simpl in Hin'. rewrite app_nil_r, Lcc in Hin'.
       apply in_app_or in Hin' as [Hin'|Hin']; auto. exfalso.
       (* ch is below a child of the root other than the start tip *)
-      destruct (firstn d pA) as [|k0 r0] eqn:Ef; [rewrite <- Hd in Ef; destruct pA; [congruence|discriminate]|].
+      destruct (firstn d pA) as [|k0 r0] eqn:Ef; [rewrite <- HSd in Ef; destruct pA; [congruence|discriminate]|].
       assert (Hk0 : k0 <> j).
-      { destruct pA as [|k1 r1]; [congruence|]. rewrite <- Hd in Ef. simpl in Ef. inversion Ef; subst k1.
+      { destruct pA as [|k1 r1]; [congruence|]. rewrite <- HSd in Ef. simpl in Ef. inversion Ef; subst k1.
         eapply masked_first_index; eauto. }
       simpl in Hch. destruct (nth_error sl k0) as [[[e0' c0']|]|] eqn:Ek0; try discriminate.
       eapply (two_children_disjoint sl k0 j); eauto.
@@ -231,9 +235,7 @@ Proof.
     + (* the start tip: the whole path minus the far half *)
       assert (Esum : (elen eC + dbc + (elen eP + daR) == cur)%Q).
       { rewrite Ed2, Edx. fold da. unfold da. rewrite EdB', Ecur. ring. }
-      rewrite ED. rewrite Eb in Esum. unfold half, qhalf in Esum.
-      setoid_replace (elen eP + daR)%Q with (cur - cur * (1 # 2))%Q; [ring|].
-      rewrite <- Esum. ring.
+      rewrite ED. rewrite Eb in Esum. unfold half, qhalf in Esum. lra.
     + rewrite Eb, ED. reflexivity.
   - (* the root is inserted on the branch of the start tip *)
     apply Nat.ltb_ge in Elt. assert (Ei : i - 1 = m) by lia.
@@ -245,7 +247,7 @@ Proof.
                 (mkE (elen ea - cut) (esup ea) nilv []) (mkE cut (esup ea) nilv [])
                 t2 ea lf W2 D2 eq_refl Hj) as [t4 [R [E4 [S4 [_ [L4 P4]]]]]].
     { simpl. ring. }
-    assert (t4 = t') by congruence. subst t4.
+    assert (Et : t4 = t') by congruence. rewrite Et in *. clear Et E4.
     set (eP := mkE (elen ea - cut) (esup ea) nilv []) in *.
     set (eC := mkE cut (esup ea) nilv []) in *.
     assert (Hlen' : (len == cur)%Q).
@@ -290,7 +292,5 @@ Proof.
     + rewrite Ea, ED. reflexivity.
     + assert (Esum : (elen eP + dbR + (elen eC + 0) == cur)%Q).
       { rewrite Ed2, Edx. fold da. unfold da. rewrite EdB', Ecur. ring. }
-      rewrite ED. rewrite Ea in Esum. unfold half, qhalf in Esum.
-      setoid_replace (elen eP + dbR)%Q with (cur - cur * (1 # 2))%Q; [ring|].
-      rewrite <- Esum. ring.
+      rewrite ED. rewrite Ea in Esum. unfold half, qhalf in Esum. lra.
 Qed.
